@@ -256,7 +256,7 @@ def e2e_layout(rng, B, nmsgs, final_nl=True, long_lines=False, first_undated=0, 
     return lay
 
 
-def boundary_layout(rng, B, first_lines=1, nmsgs=25, notation="iso"):
+def boundary_layout(rng, B, first_lines=1, nmsgs=25, notation="iso", continuation=False):
     """The first `first_lines` one-line messages together end exactly on the last byte of a block of size B; the next
     line starts on byte 0 of the following block and is longer than a block."""
     lines, dated = [], []
@@ -270,6 +270,13 @@ def boundary_layout(rng, B, first_lines=1, nmsgs=25, notation="iso"):
         lines.append(ln + b"\n")
         dated.append(True)
         remaining -= len(lines[-1])
+    if continuation:
+        # the line that starts the next block belongs to the message before it: a continuation line longer than a block,
+        # then a short one
+        lines.append(b" at " + b"c" * rng.choice([B + 22, 2 * B + 1, 3 * B]) + b"\n")
+        dated.append(False)
+        lines.append(b" caused by: short\n")
+        dated.append(False)
     for m in range(nmsgs):
         k += 1
         head = ts_head(k, notation) + b" msg=%d " % m
